@@ -4,7 +4,8 @@ set -u
 cd /repo || exit 2
 git diff --quiet || { echo "repo dirty"; exit 2; }
 git apply "$1" || { echo "patch does not apply"; exit 2; }
-cd /verif && ./check "$2" --tier "${3:-quick}" 2>&1 | grep -v "^  " | tail -${4:-6}
-rc=$?
+cd /verif && ./check "$2" --tier "${3:-quick}" > /tmp/drill.$$ 2>&1
+echo "exit=$? violations=$(grep -c '^VIOLATION' /tmp/drill.$$)"; grep '^VIOLATION' /tmp/drill.$$ | head -${4:-3}; grep "tier=" /tmp/drill.$$ | tail -1
+rm -f /tmp/drill.$$
 cd /repo && git checkout -- . && git status --short | grep -v '^??' | head -3
 exit 0
